@@ -14,6 +14,8 @@
 (*   allof      allOf[$ref t, inline member]                  -> class     *)
 (*   wrap       allOf[$ref t]  (single-reference wrapper)     -> alias of t, no class  *)
 (*   arr        array of $ref t                               -> no class  *)
+(*   union      oneOf[$ref t, string]                         -> no class  *)
+(*   unionarr   oneOf[array of $ref t, string]                -> no class  *)
 (*   enum       string enum                                   -> class     *)
 (*   prim       string                                        -> no class  *)
 (*  faults:                                                                *)
@@ -38,8 +40,9 @@ CONSTANTS Names,      \* names usable in a document, e.g. {"A","B","C"}
           Dangling    \* a name that is never defined, e.g. "Z"
 
 ModelKinds == {"obj", "objref", "objarr", "objinl", "allof", "objbadprop", "objbaddef", "objrefbad"}
-RefKinds   == {"objref", "objarr", "allof", "wrap", "arr", "topref", "objrefbad"}
-Kinds      == ModelKinds \cup {"wrap", "arr", "enum", "prim", "arrnoitems", "enummixed", "topref"}
+RefKinds   == {"objref", "objarr", "allof", "wrap", "arr", "union", "unionarr", "topref", "objrefbad"}
+CreateRefKinds == {"arr", "wrap", "union", "unionarr"}     \* need their target when they are CREATED
+Kinds      == ModelKinds \cup {"wrap", "arr", "union", "unionarr", "enum", "prim", "arrnoitems", "enummixed", "topref"}
 
 VARIABLES doc,        \* the document: sequence of [name, k, t]
           phase,      \* "create" | "process" | "remove" | "done"
@@ -88,9 +91,9 @@ NeedsOf(d, n) == IF Shape(d, n).k \in RefKinds /\ Defined(d, Shape(d, n).t) THEN
 \* "arr" and "wrap" need their target when they are CREATED; a cycle through such edges can never be created
 RECURSIVE CreateReach(_, _, _)
 CreateReach(d, S, fuel) ==
-  LET T == S \cup UNION {NeedsOf(d, n) : n \in {m \in S : Shape(d, m).k \in {"arr", "wrap"}}}
+  LET T == S \cup UNION {NeedsOf(d, n) : n \in {m \in S : Shape(d, m).k \in CreateRefKinds}}
   IN IF T = S \/ fuel = 0 THEN S ELSE CreateReach(d, T, fuel - 1)
-CreateCycle(d, n) == Shape(d, n).k \in {"arr", "wrap"} /\ n \in CreateReach(d, NeedsOf(d, n), Len(d))
+CreateCycle(d, n) == Shape(d, n).k \in CreateRefKinds /\ n \in CreateReach(d, NeedsOf(d, n), Len(d))
 Bad(d) == {n \in DocNames(d) : OwnFault(d, n) \/ CreateCycle(d, n)}
 RECURSIVE Lfp(_, _, _)
 Lfp(d, X, fuel) == LET Y == X \cup {n \in DocNames(d) : NeedsOf(d, n) \cap X # {}}
@@ -113,6 +116,7 @@ CreateOutcome(n) == LET s == Shape(doc, n) IN
     [] s.k = "enum" -> "enum"
     [] s.k = "prim" -> "plain"
     [] s.k \in {"wrap", "arr"} -> IF s.t \in byRef THEN s.k ELSE "fail"
+    [] s.k \in {"union", "unionarr"} -> IF s.t \in byRef THEN "union" ELSE "fail"
     [] s.k \in {"arrnoitems", "enummixed"} -> "fail"
     [] OTHER -> "topref"
 
@@ -131,6 +135,8 @@ CreateTry ==
           [] o = "plain"  -> /\ byRef' = byRef \cup {n} /\ progress' = TRUE
                              /\ UNCHANGED <<nextq, cls, toProc, deps, errs, lastErr>>
           [] o = "arr"    -> /\ byRef' = byRef \cup {n} /\ deps' = AddDeps(deps, s.t, {<<"ref", n>>}) /\ progress' = TRUE
+                             /\ UNCHANGED <<nextq, cls, toProc, errs, lastErr>>
+          [] o = "union"  -> /\ byRef' = byRef \cup {n} /\ deps' = AddDeps(deps, s.t, {<<"ref", n>>}) /\ progress' = TRUE
                              /\ UNCHANGED <<nextq, cls, toProc, errs, lastErr>>
           [] o = "wrap"   -> /\ byRef' = byRef \cup {n} /\ deps' = AddDeps(deps, s.t, {<<"ref", n>>}) /\ progress' = TRUE
                              \* an alias of a model is queued for processing too (its properties still need resolving)
